@@ -79,6 +79,16 @@ CLAIMS['C17'] = {
     'note': TB,
     'technique': 'Lean 4 theorems (symbolic execution of the wrapper, layout arithmetic) + differential runs through ZoneAlloc and NvmAlloc over real memory regions',
 }
+CLAIMS['C12'] = {
+    'text': ('Theorems lower_get_complete / lower_get_sound / lower_get_at_iff: for every geometry (HUGE_ORDER 6..15, TREE_HUGE a '
+             'power of two), frame count, allocation pattern satisfying the lower invariant, hint row and order 0..TREE_ORDER, the '
+             'model of Lower::get fails only if the tree holds no aligned entirely free block of the order (and then changes nothing), '
+             'never panics, and a success returns such a block of the searched tree, inside the managed range, marking exactly it and '
+             'preserving the invariant. Built from proved specifications of toggle (all orders, with roll-back), set_first_zeros '
+             '(row search via the C23 theorem; chunk search), compare_exchange_all, put_small, partial_put_huge.'),
+    'note': TB,
+    'technique': 'Lean 4 refinement proof of the lower allocator (sequential semantics, invariant + per-function specifications by induction over the loops) + differential runs on crafted tree patterns',
+}
 
 _PENDING = 'claimed by DESIGN.md; theorem module not yet landed in this revision (work in progress, see DESIGN.md §10 staging)'
 NOT_APPLICABLE = {
